@@ -128,7 +128,10 @@ impl<Tx: Debug + ProstMessage + Default, Rx: Debug + ProstMessage + Default> Cha
     /// Creates a nonblocking channel, using a unix stream
     pub fn new(sock: MioUnixStream, buffer_size: u64, max_buffer_size: u64) -> Channel<Tx, Rx> {
         let buffer_size = buffer_size as usize;
-        let max_buffer_size = max_buffer_size as usize;
+        // The ceiling can never be below the initial size: otherwise the writer
+        // accepts frames (up to `buffer_size`) that the reader must refuse
+        // (`> max_buffer_size`), and the buffers start above their own ceiling.
+        let max_buffer_size = (max_buffer_size as usize).max(buffer_size);
         Channel {
             sock,
             front_buf: Buffer::with_capacity(buffer_size),
